@@ -50,11 +50,22 @@ MONITOR = {"R": None, "pid": None}
 _FILL = 12345
 
 
+def _fill_for(dt):
+    """What surrounds the series in its buffer: a value a kernel reading past its strides would visibly pick up."""
+    dt = np.dtype(dt)
+    if dt.kind == "b":
+        return True
+    if dt.kind in "iu":
+        return min(12345, int(np.iinfo(dt).max) - 1)
+    return 12345
+
+
 def present(y, dtype):
     """The series in the dtype the kernel's signature names (so NumPy hands the caller's own memory to the gufunc, no
     casting buffer) and in a memory layout chosen deterministically from the data: contiguous, every second element of a
     longer buffer, a reversed view, or a column of a 2-d array.  Returns (view, owning buffer, pristine copy, layout)."""
     a = np.ascontiguousarray(y, dtype=dtype)
+    _FILL = _fill_for(a.dtype)
     if a.ndim != 1 or a.size == 0:
         c = a.copy()
         return c, c, a, "copy"
